@@ -52,6 +52,7 @@ class Tracer:
         self.waiting = {}          # thread ident -> (condition name, timeout)
         self.threads = []          # every Thread created through the shim
         self.names = {}            # id(condition) -> name
+        self.keep = []
 
     def cvname(self, cv):
         return self.names.get(id(cv), "cv?")
@@ -133,6 +134,7 @@ def name_conditions(sock, label=""):
         cv = getattr(sock, n, None)
         if cv is not None:
             TRACER.names[id(cv)] = n
+            TRACER.keep.append(cv)          # keep the object: id() must not be reused
             if isinstance(cv, DCondition):
                 cv.name = n
 
